@@ -78,8 +78,14 @@ def check_case(case):
 @st.composite
 def s_case(draw):
     t = draw(gen.tx_model(max_in=5, max_out=5, big=False))
-    n = draw(st.sampled_from([0, 1, 25, 25, 35, 252, 253, 300]))
+    n = draw(st.sampled_from([0, 1, 25, 25, 35, 252, 253, 300, 22, 23, 34, 71, 251, 254, 255, 256, 257, 520, 521, 0xfffe, 0xffff, 0x10000, 0x10001]))
     sc = draw(st.binary(min_size=n, max_size=n)) if n <= 35 else (draw(st.binary(min_size=4, max_size=4)) * (n // 4 + 1))[:n]
+    if draw(st.integers(0, 3)) == 0:
+        # script codes shaped like the standard templates (the digest commits to the bytes as given, whatever they look like)
+        h = draw(st.binary(min_size=32, max_size=32))
+        sc = draw(st.sampled_from([b'\x00\x14' + h[:20], b'\x00\x20' + h, b'\x76\xa9\x14' + h[:20] + b'\x88\xac', b'\xa9\x14' + h[:20] + b'\x87',
+                                   b'\x51\x20' + h, b'\x51\x21\x02' + h + b'\x51\xae', b'\xab', b'\x51\xab\x52\xab', b'\x21\x03' + h + b'\xac',
+                                   b'\x16\x00\x14' + h[:20], b'\x19\x76\xa9\x14' + h[:20] + b'\x88\xac', b'\x6a' + h[:4], b'\x4c', b'\x4d\xff']))
     c = {'tx': t, 'script': sc.hex(), 'idx': draw(st.integers(0, len(t['vin']) - 1)),
          'amount': draw(gen.boundary_or_random(0, 2 ** 63 - 1)), 'mutable': draw(st.booleans())}
     if draw(st.integers(0, 60)) == 0:
